@@ -78,7 +78,15 @@ def main(tier: str) -> int:
         nconn = len(net._connects)
         samples = 3
         X = np.array([[rng.uniform(-2, 2) for _ in range(nin)] for _ in range(samples)])
+        X[1] *= 40.0      # un-scaled features: logits of large magnitude (softmax must stay on the simplex)
+        if nin > 1:
+            X[1, -1] = 1.0
         W = np.array([[rng.uniform(-3, 3) for _ in range(nconn)] for _ in range(3)])
+        if any(int(v) == 5 for v in net._activs.values()):
+            # extreme but legal setting (weights at the optimisers' border -10, un-scaled positive features):
+            # all logits far below zero; the softmax must still be the joint normalisation
+            X[2] = np.array([rng.uniform(20, 60) for _ in range(nin)])
+            W[2] = -10.0
         d = {"net": name, "connections": nconn}
         chk.case((name, nconn), sample={**d, "inputs": sorted(int(i) for i in net._inputs), "outputs": sorted(int(i) for i in net._outputs)} if len(chk.samples) < 4 else None)
         chk.count(name.split(":")[0].split("(")[0])
